@@ -7,7 +7,7 @@ META = {
     "driver_id": "Edit",
     "coq_targets": ["Props/C09.vo", "Extract/Extract_Edit.vo"],
     "technique": 'Coq invariant / refinement proofs over the executable edit-machine model + step-by-step differential correspondence of the extracted model with the implementation + direct oracle on the implementation',
-    "level_text": 'Proved in Coq about the executable model (Props/C09.v, all closed under the global context): C09_iou_of_spec (the value the edge annotator computes is |A n B| / |A u B| for the duplicate-free masks A, B of the two endpoints, each taken in its own time frame - frames need not be adjacent -, 0 when they do not meet, with |A u B| + |A n B| = |A| + |B|); the edge half iou_fresh of W_fresh (every edge stores iou_of of the current array) is preserved by each basic action under its documented precondition: C09_fresh_add_edge and C09_add_edge_value (the new edge stores the IoU of its endpoint masks whatever the caller passed), C09_fresh_upd_seg (all edges into or out of the repainted node are recomputed, the others keep valid values), C09_fresh_add_node, C09_fresh_other (DeleteEdge, UpdateNodeAttrs, UpdateTrackIDs, DeleteNode). The bulk computation path (compute_iou over all edges) is not modelled: its agreement with the incremental path is checked by the harness oracle on every run, not proved. C09_run_edge_calls (every state reachable from a well-formed state by any sequence, of any length, of edge-level calls - add / delete edge with and without force, swap, track queries, fresh ids - satisfies the complete invariant WF: dictionaries, forest, track ids, lineage ids, lookups, label/node correspondence, fresh features; induction over the call list); C09_run_node_calls (the same reachability statement with UserAddNode and UserDeleteNode included, accepted or refused, each UserAddNode respecting its documented preconditions - integer time / track id, no caller-supplied lineage id, and with a segmentation a non-zero id and background pixels of its own frame; Proofs/EditWFNodeExample.v shows three accepted calls outside these preconditions that break the invariant); C09_sessions (from a well-formed state with an empty history, EVERY state reached along ANY sequence - of any length - of calls of the WHOLE public interface of the edit machine - edge, swap, node, attribute and stroke edits, undo, redo, queries - accepted or refused, satisfies the complete invariant WF; hypotheses: three configuration facts no call changes, and the documented per-call preconditions of UserAddNode / node calls without segmentation at the moment each call is made; strokes, edge calls, attribute updates, undo and redo have none); C09_paint and C09_run_paint_calls (every accepted stroke yields a well-formed state; every refused stroke too, the rolled-back one included); C09_user_actions_are_generated (the seven composite user actions of the model equal, for all arguments, the code translated on every run from the current user_actions/*.py); C09_sessions_from_construction (the start state need not be assumed well formed: for every valid raw solution - forest, labels and nodes one-to-one, fresh feature table, true oracle partitions - the state constructed by enabling the core features with recomputation is well formed, so every session over the whole interface from it stays well formed). C09_core_is_generated: one level further down, the queries, the node-id counter, Tracks.undo / redo and the seven basic actions with their inverses of the model equal the code translated on every run from solution_tracks.py, tracks.py, _track_annotator.py and actions/*.py (Gen/Core_gen.v; statement in Proofs/CoreTieBundle.v). Source tie: the regionprops and edge annotators of the model (incremental update and bulk compute) equal, for all arguments, the code translated on every run from _regionprops_annotator.py, _edge_annotator.py and _compute_ious.py (Gen/Annotators_gen.v; Proofs/AnnotatorsTie.v, 25 closed theorems); this closes the chain from the user actions through the basic actions down to the annotators. C09_sessions_from_any_construction: the same for a graph that arrives with managed features of its own - the constructor as the code runs it (Model/EditCtor.v construct_any: the id lookups filled by a scan of the supplied ids, every core feature the first node carries activated at face value, every other one computed) yields a well-formed state whenever the detected features are valid on all nodes (supplied_ok), for every combination of supplied and computed features, and every session from it stays well formed (Proofs/EditCtor.v; EditCtorExample.v shows that invalid supplied ids break it); tie: constructor correspondence on every generated raw solution (harness/ctor.py). C09_sessions_from_prepared_registry: likewise for tracks constructed with a prepared feature registry (features=<FeatureDict>: load_tracks, application-built registries; Model/EditCtor.v construct_dict - scan, activate what is registered, compute nothing): if everything registered is valid on the graph (EditCtorDict.dict_ok) the constructed state is well formed and every session from it stays well formed; EditCtorDictExample.v has a reloaded solution and a stale-area counter-example; tie: driver line CD of the constructor correspondence.',
+    "level_text": 'Proved in Coq about the executable model (Props/C09.v, all closed under the global context): C09_iou_of_spec (the value the edge annotator computes is |A n B| / |A u B| for the duplicate-free masks A, B of the two endpoints, each taken in its own time frame - frames need not be adjacent -, 0 when they do not meet, with |A u B| + |A n B| = |A| + |B|); the edge half iou_fresh of W_fresh (every edge stores iou_of of the current array) is preserved by each basic action under its documented precondition: C09_fresh_add_edge and C09_add_edge_value (the new edge stores the IoU of its endpoint masks whatever the caller passed), C09_fresh_upd_seg (all edges into or out of the repainted node are recomputed, the others keep valid values), C09_fresh_add_node, C09_fresh_other (DeleteEdge, UpdateNodeAttrs, UpdateTrackIDs, DeleteNode). The bulk computation path (compute_iou over all edges) is not modelled: its agreement with the incremental path is checked by the harness oracle on every run, not proved. C09_run_edge_calls (every state reachable from a well-formed state by any sequence, of any length, of edge-level calls - add / delete edge with and without force, swap, track queries, fresh ids - satisfies the complete invariant WF: dictionaries, forest, track ids, lineage ids, lookups, label/node correspondence, fresh features; induction over the call list); C09_run_node_calls (the same reachability statement with UserAddNode and UserDeleteNode included, accepted or refused, each UserAddNode respecting its documented preconditions - integer time / track id, no caller-supplied lineage id, and with a segmentation a non-zero id and background pixels of its own frame; Proofs/EditWFNodeExample.v shows three accepted calls outside these preconditions that break the invariant); C09_sessions (from a well-formed state with an empty history, EVERY state reached along ANY sequence - of any length - of calls of the WHOLE public interface of the edit machine - edge, swap, node, attribute and stroke edits, undo, redo, queries - accepted or refused, satisfies the complete invariant WF; hypotheses: three configuration facts no call changes, and the documented per-call preconditions of UserAddNode / node calls without segmentation at the moment each call is made; strokes, edge calls, attribute updates, undo and redo have none); C09_paint and C09_run_paint_calls (every accepted stroke yields a well-formed state; every refused stroke too, the rolled-back one included); C09_user_actions_are_generated (the seven composite user actions of the model equal, for all arguments, the code translated on every run from the current user_actions/*.py); C09_sessions_from_construction (the start state need not be assumed well formed: for every valid raw solution - forest, labels and nodes one-to-one, fresh feature table, true oracle partitions - the state constructed by enabling the core features with recomputation is well formed, so every session over the whole interface from it stays well formed). C09_core_is_generated: one level further down, the queries, the node-id counter, Tracks.undo / redo and the seven basic actions with their inverses of the model equal the code translated on every run from solution_tracks.py, tracks.py, _track_annotator.py and actions/*.py (Gen/Core_gen.v; statement in Proofs/CoreTieBundle.v). Source tie: the regionprops and edge annotators of the model (incremental update and bulk compute) equal, for all arguments, the code translated on every run from _regionprops_annotator.py, _edge_annotator.py and _compute_ious.py (Gen/Annotators_gen.v; Proofs/AnnotatorsTie.v, 25 closed theorems); this closes the chain from the user actions through the basic actions down to the annotators. C09_sessions_from_any_construction: the same for a graph that arrives with managed features of its own - the constructor as the code runs it (Model/EditCtor.v construct_any: the id lookups filled by a scan of the supplied ids, every core feature the first node carries activated at face value, every other one computed) yields a well-formed state whenever the detected features are valid on all nodes (supplied_ok), for every combination of supplied and computed features, and every session from it stays well formed (Proofs/EditCtor.v; EditCtorExample.v shows that invalid supplied ids break it); tie: constructor correspondence on every generated raw solution (harness/ctor.py). C09_sessions_from_prepared_registry: likewise for tracks constructed with a prepared feature registry (features=<FeatureDict>: load_tracks, application-built registries; Model/EditCtor.v construct_dict - scan, activate what is registered, compute nothing): if everything registered is valid on the graph (EditCtorDict.dict_ok) the constructed state is well formed and every session from it stays well formed; EditCtorDictExample.v has a reloaded solution and a stale-area counter-example; tie: driver line CD of the constructor correspondence. Feature switching inside a session: C09_switch_step (one enable_features-with-recomputation / disable_features call of non-id features keeps the complete invariant WF and the side facts, touches neither history stack nor the array; a refused call returns the state itself), C09_sessions_with_switching_partial (every state along switches ++ an editing session with undo / redo ++ any mix of switches and edits without undo / redo is well formed) and C09_sessions_with_switching_conditional (any interleaving, from the one open hypothesis transport_along: the recorded actions stay consistent transitions between the switched timeline states); undo / redo after a switch is therefore covered by correspondence + oracles only (every run mixes switches into the C08 / C09 / C10 sessions). Proofs/EditSessionsToggle.v.',
     "level_note": 'Trusted: Coq kernel, extraction (ExtrOcamlBasic only), OCaml driver drv_Edit.ml, Python harness and oracles. Modelled, not verified: networkx DiGraph dict semantics, numpy indexing, skimage regionprops (symbolic: value = function of key, mask, spacing), psygnal. The theorems are about the hand-written model coq/Model/Edit.v; the tie to /repo is the step-by-step differential execution of the extracted model against the implementation on every run. Tied to the source in a second way: the history mechanism (action_history.py) and the seven composite user actions (user_actions/*.py) are re-translated on every run by fail-closed translators (harness/translate_history.py, translate_user_actions.py; closed idiom tables; runtime combinators Model/PyRt.v) and proved equal to the hand-written model for all arguments (Proofs/HistoryTie.v, UserActionsTie.v); trusted there: the idiom tables and combinators, and the stated conventions (get_time / successors on a missing node do not raise, StopIteration reported as KeyError, feature keys never None).',
     "design_ref": "DESIGN.md section 9 (C09)",
     "assumptions": ['the caller does not pass a lineage id to UserAddNode (outside its documented domain)', 'track_id and lineage_id features stay enabled during editing sessions', 'labels/ids are positive; times are frame indices within the array'],
